@@ -122,6 +122,14 @@ CHECKS.update({
   "DESIGN.md 4 C17"),
 })
 
+CHECKS.update({
+ "C15": ("fault_enumeration", "dialogx/ios",
+  "exhaustive enumeration of banner kind x form x position (every character offset inside the echo) x command inside the reload window, plus C09's single deviations, on an IOS simulator with reload state; ordering invariant and re-arm rule evaluated on the transcript of every run",
+  "3 change scripts; every single banner placement (2398 runs quick), thorough all ordered pairs; the ordering invariant is also evaluated on every single-deviation run.",
+  "Banner forms as the repository's own simulator scenarios produce them; virtual time.",
+  "DESIGN.md 4 C15"),
+})
+
 NOT_YET = "check not built yet in this round (design in DESIGN.md section 4); no technique switch intended"
 
 def main():
